@@ -228,15 +228,15 @@ OrdersOf(n) == IF AllOrders THEN { p \in [1..n -> 1..n] : \A i, j \in 1..n : i #
                ELSE { [i \in 1..n |-> i] }
 ChopSeqOf(o) == IF o = "none" THEN <<>> ELSE ChopOpt(o)
 
+\* (TLC re-evaluates LET definitions at every use; binding through a singleton set evaluates once)
 InitCfg(t, ord, rots) ==
-    LET cells == Topo(t)
-        n == Len(cells)
-        v == [b \in 1..n |-> CellVerts(cells[ord[b]], rots[b])]
-        cof == [x \in NodesOf(n) \X (1..4) |-> CoincOf(v, n, x[1], x[2])]
-        adj == [m \in NodesOf(n) |-> { c.n : c \in UNION { cof[<<m, i>>] : i \in 1..4 } }]
-    IN /\ verts = v
+    \E cells \in {Topo(t)} :
+    \E v \in {[b \in 1..Len(cells) |-> CellVerts(cells[ord[b]], rots[b])]} :
+    \E cof \in {[x \in NodesOf(Len(cells)) \X (1..4) |-> CoincOf(v, Len(cells), x[1], x[2])]} :
+    \E adj \in {[m \in NodesOf(Len(cells)) |-> { c.n : c \in UNION { cof[<<m, i>>] : i \in 1..4 } }]} :
+       /\ verts = v
        /\ co = cof
-       /\ fam = [m \in NodesOf(n) |-> Closure({m}, adj, 3 * n)]
+       /\ fam = [m \in NodesOf(Len(cells)) |-> Closure({m}, adj, 3 * Len(cells))]
 
 \* chop placements: any set of at most MaxChopped nodes, or (Cover) one node of every family
 \* plus at most MaxChopped further nodes
